@@ -16,11 +16,17 @@ type Tape struct {
 	Over   bool // recording capacity exceeded (search mode): tape cannot be replayed
 }
 
-const tapeCap = 1 << 18
+const tapeCap = 1 << 22
 
-// NewTape returns a recording tape seeded with seed.
+// One recording buffer per process: a worker records one run at a time
+// (Recorded() copies what a violation needs), and a buffer that never grows
+// keeps growslice out of the kernel paths (see the discipline note in sim.go).
+var tapeBuf = make([]uint32, 0, tapeCap)
+
+// NewTape returns a recording tape seeded with seed. At most one recording
+// tape is in use at any time in a process.
 func NewTape(seed uint64) *Tape {
-	return &Tape{state: seed, Vals: make([]uint32, 0, tapeCap)}
+	return &Tape{state: seed, Vals: tapeBuf[:0]}
 }
 
 // ReplayTape returns a tape that replays v.
